@@ -26,6 +26,7 @@ def get_world(plan):
         w = make_world()
         w.uf_mul = plan.get('uf_mul', False)
         w.feas_reduced = plan.get('feas_reduced', False)
+        w.seq_in_spec = plan.get('seq_in_spec', {})
         for extra in plan.get('models', []):
             importlib.import_module(extra).declare(w)
         for m in plan['specs']:
@@ -332,7 +333,8 @@ def main(argv=None):
             nat_skipped.append('native cross-check crashed: %s' % traceback.format_exc()[-800:])
     # ---- extra bounded stand-ins registered by the plan ----
     bounded_reports = []
-    for name in plan.get('bounded', []):
+    # development aid: `--only <function>` together with PYVC_NO_BOUNDED=1 skips the stand-ins (never used by the registered commands)
+    for name in ([] if (args.only and os.environ.get('PYVC_NO_BOUNDED')) else plan.get('bounded', [])):
         modname, fname = name.rsplit('.', 1)
         try:
             rep = getattr(importlib.import_module(modname), fname)(tier=tier, seed=seed)
